@@ -5,7 +5,7 @@
    spec:   basic_url_parse dta (runes x) sbase su0 soverride     (code points; Spec/BasicParser.v)
            with dta bytes := ToASCII idna_raw c bytes  (the model's IDNA wrapper as the standard's oracle).
 
-   Hypotheses: the standard configuration [std_cfg c] (Proofs/RefineCodec.v), the two assumptions on the
+   Premises: the standard configuration [std_cfg c] (Proofs/RefineCodec.v), the two assumptions on the
    UTS #46 oracle [oracle_ok idna_raw c] (Proofs/RefineMachineBase.v), related and well-formed base URLs. *)
 From Verif Require Import Lib.Base Lib.Utf8 Lib.GoStr Model.Cfg Gen.Tables Gen.Options Model.Sets Model.Percent
      Model.Url Model.Host Model.Machine.
@@ -114,3 +114,30 @@ Example R8_parse_ex :
   | _, _ => False
   end.
 Proof. vm_compute. split; reflexivity. Qed.
+
+(* ---------- what the refinement does NOT say ----------
+   The standard's parser is run on [runes x], Go's reading of the byte string x as code points (each byte that
+   is not part of a valid UTF-8 sequence becomes one U+FFFD). A front end that decodes the bytes with the
+   WHATWG UTF-8 decoder (one U+FFFD per maximal invalid prefix) hands a different string to the parser when x
+   is not valid UTF-8 (Proofs/RefineUtf8Dec.v: whatwg_vs_go_differ), and the results differ: for the bytes
+   "a:" E2 82 "A" the model (like the standard on [runes x]) yields a:%EF%BF%BD%EF%BF%BDA, the standard on the
+   WHATWG decoding yields a:%EF%BF%BDA. On valid UTF-8 the two readings coincide (whatwg_decode_valid). *)
+From Verif Require Import Spec.PercentCodec Proofs.RefineUtf8Dec.
+
+Lemma R8_whatwg_decoding_refuted : exists x,
+  valid_utf8 x = false /\
+  match BasicParser ascii_idna default_cfg x None None None,
+        SB.basic_url_parse (dta ascii_idna default_cfg) (utf8_decode_without_bom x) None None None with
+  | RUrl u, SB.Done su => Href u false <> Some (encode_runes (SU.url_serialize su false))
+  | _, _ => False
+  end.
+Proof. exists [97;58;226;130;65]. split; [reflexivity|]. vm_compute. discriminate. Qed.
+
+Corollary R8_parse_valid_utf8 idna_raw c x base sbase :
+  std_cfg c -> oracle_ok idna_raw c -> base_rel base sbase -> base_wf sbase -> valid_utf8 x = true ->
+  let so := SB.basic_url_parse (dta idna_raw c) (utf8_decode_without_bom x) sbase None None in
+  so = SB.OutOfFuel \/ result_rel false (BasicParser idna_raw c x base None None) so.
+Proof.
+  intros Hstd Hor Hb Hw Hv. rewrite (whatwg_decode_valid x Hv). apply R8_parse; assumption.
+Qed.
+Print Assumptions R8_parse_valid_utf8.
